@@ -7,6 +7,18 @@ prop("C18", "exploration",
      "succeed, equal the value on every wire field (times by Unix seconds; parse-time data such as Certificate.Fingerprint and "
      "retained raw bytes excluded) and consume exactly the encoded length; an encoder error is accepted only for a value that "
      "does not fit the format (label > 252 bytes, id chunk > 512, one-byte-length string > 255, two-byte-length field > 65535). "
+     "Names (alone, in certificates' id chunks, in intents' TargetSNI and delegate certificates) are compared by type, label bytes AND "
+     "IsZero(): generated labels are never nil, a zero-length one is the explicitly empty name that the documentation of Name.IsZero "
+     "distinguishes from the zero Name (signature suffix :IsZero). Values own their memory: a parsed certificate's Marshal must equal "
+     "its WriteTo, and after the caller overwrote every byte (and the spare capacity) of the result the certificate's retained raw "
+     "bytes and fingerprint must be untouched and a second Marshal must give the same serialisation "
+     "(C18:marshal-result-shares-memory:certs.Certificate:<what>); a parsed certificate with 1..8 fields changed afterwards (selection "
+     "from the case seed: version, type, each time, key, parent, names, signature) must Marshal to bytes that decode to the CHANGED "
+     "value (roundtrip-mismatch:certs.Certificate:modified-after-parse:<field>); a decoded tube frame must be unchanged after the "
+     "datagram buffer it was decoded from has been overwritten - complemented, zeroed or filled with other bytes - as Muxer.readMsg "
+     "does with its one reused read buffer (C18:decoded-value-aliases-input-buffer:tubes.frame; data frames in (A) and (B), initiate "
+     "frames on the muxer's fromBytes->toBytes->fromInitiateBytes path), and the frame that was encoded must not follow changes to the "
+     "bytes toBytes returned. "
      "(B) valid encodings are mutated (length fields set to 0/1/actual+-1/0xFF/0xFFFF, truncation, trailing bytes, spliced or "
      "deleted blocks, byte and bit edits); whenever the real decoder accepts the bytes as v and the encoder accepts v, decoding "
      "the re-encoding must give v again. Small finite sub-spaces are enumerated (all string lengths 0..600, all id types x label "
